@@ -301,7 +301,13 @@ func checkDecryptHelper(c *Ctx, prop string) {
 	var rets []string
 	distinct := map[string]map[string]string{}
 	for _, ex := range xp.Exits {
-		if len(ex.Ret) != 2 || ex.Ret[1] != "nil" {
+		// a return that can report success: (value, nil), or the (value, error)
+		// pair of a call handed through (e.g. the padding remover's)
+		succ := len(ex.Ret) == 2 && ex.Ret[1] == "nil"
+		if len(ex.Ret) == 1 && strings.Contains(ex.Ret[0], "(") {
+			succ = true
+		}
+		if !succ {
 			continue
 		}
 		_, dv, ok := atomPS(ex.Cube, "decryptMessage(", "#1==nil")
@@ -314,6 +320,7 @@ func checkDecryptHelper(c *Ctx, prop string) {
 	}
 	// authenticated influence: if the accepted plaintext differs between success
 	// paths, the distinguishing condition must not be a message byte that Open did not cover
+	c.Floor("decryptPayload success returns", len(rets), 1)
 	ruleA := "authenticated influence: every byte of the received message that selects how the plaintext is post-processed after a successful Open lies inside the nonce, ciphertext or associated data given to Open"
 	c.Rule(ruleA)
 	if len(rets) > 1 {
